@@ -130,3 +130,8 @@ var d2bExceptions = map[string]string{
 var d5Exceptions = map[string]string{
 	"pubsub.(*Queue).popFront": "documented precondition 'q is not empty': both callers test tracker.len() / wait for non-empty under the same lock (checked by W-rules and L2)",
 }
+
+// P2: pipes that are deliberately never closed.
+var p2NoClose = map[string]string{
+	"fun.Transform.Pipe": "documented: the returned processor/producer pair is driven by the caller; the channel is never closed",
+}
